@@ -1015,6 +1015,42 @@ def guard_stream(rng, spec, cell):
     return hs
 
 
+PLAIN = {'bound': (False, None), 'custom_model': (None,), 'stabilized': (True,), 'model_numerator': ('1', None),
+         'continuous_distribution': ('gaussian',), 'predict_missing': (True,), 'restriction': (None,),
+         'conditional': (None,), 'solver': ('closed',), 'starting_value': (None,), 't_max': (None,)}
+
+
+def richness(op):
+    return sum(1 for k, v in op['args'].items() if k in PLAIN and v not in PLAIN[k]) + int(op['flag'])
+
+
+def variant(rng, m, cell, rich):
+    """a call of method m with as many (rich) / as few (plain) optional features as its generator offers"""
+    cands = [new_op(rng, m, cell) for _ in range(14)]
+    return (max if rich else min)(cands, key=richness)
+
+
+def refit_stream(rng, spec, cell):
+    """structured histories: (A) every model specified with all optional features (bound, custom model,
+    unstabilised, numerator, ...), fitted, then re-specified plainly and refitted -- options of an earlier
+    specification must not survive; (B) plain specification, fit, refit with other arguments, then each model
+    re-specified in turn, each followed by fit and every result-reading method -- nothing may accumulate."""
+    ms = spec.methods
+    specs = [m for m in ms if m.kind == 'spec']
+    fits = [m for m in ms if m.kind == 'fit']
+    reads = [m for m in ms if m.kind in ('res', 'read')]
+    res = [m for m in ms if m.kind == 'res'] or reads[:1]
+    a = [variant(rng, m, cell, True) for m in specs] + [variant(rng, fits[0], cell, True)]
+    a += [variant(rng, m, cell, False) for m in specs if not m.once] + [variant(rng, fits[-1], cell, False)]
+    a += [new_op(rng, m, cell) for m in reads]
+    b = [variant(rng, m, cell, False) for m in specs]
+    b += [new_op(rng, fits[0], cell), new_op(rng, fits[-1], cell)] + [new_op(rng, m, cell) for m in res]
+    for m in specs:
+        if not m.once:
+            b += [variant(rng, m, cell, True), new_op(rng, pick(rng, fits), cell)] + [new_op(rng, x, cell) for x in res]
+    return [a, b]
+
+
 def h_gate(chk, df, formula, family='binomial'):
     """measured: a statsmodels GLM refitted on the same data gives bit-identical predictions"""
     import statsmodels.api as sm
@@ -1127,6 +1163,8 @@ def run(chk, drv, rng, tier):
             if ci == 0 or not quick:
                 for ops in guard_stream(rng, spec, cell):
                     run_history(chk, drv, spec, cell, df, dseed, ops, tag, ngen=n, unavailable=una)
+            for ops in refit_stream(rng, spec, cell):
+                run_history(chk, drv, spec, cell, df, dseed, ops, tag, ngen=n, unavailable=una)
             nh = (2 if quick else 8)
             for _ in range(nh):
                 length = int(rng.integers(3, 9)) if quick else int(rng.integers(4, 15))
